@@ -12,11 +12,11 @@ RULE = ('bursts of 3-40 unique-id publications with priorities from a small set 
         'threads are starved or interleaved by detsched (random schedules with low switch probability, PCT); the fabric queues are logging '
         'PriorityQueue subclasses whose _put/_get record under the queue\'s own mutex. For every get of item X: no item present in that '
         'queue at that moment may have a smaller priority number, or an equal priority and a publish call that RETURNED before X\'s publish '
-        'call started; and the arrival order in every subscriber queue must equal the get order. distinct_nontrivial = distinct (burst '
+        'call started; and the arrival order in every subscriber queue must equal the get order. The same statement is judged a second time at the client boundary alone (publish call / return steps and arrival steps in recording subscriber queues): when Y arrives right after X, no publication whose publish call had returned before X arrived (before the fabric was started, for the first arrival) and which is more urgent than Y - or as urgent and published before Y\'s publish call began - may arrive after Y (a delivery thread that takes several publications out of the fabric at once and hands them over one by one is seen here). distinct_nontrivial = distinct (burst '
         'size, publishers, multiset of priorities, max simultaneous equal-priority backlog) tuples with >= 3 equal-priority items waiting')
 CASES = {'quick': 2000, 'thorough': 100000}
 BUDGET = {'quick': 150, 'thorough': 300}
-REQUIRE = {'bursts': 800, 'gets_checked': 10000, 'bursts_with_3_equal_waiting': 300, 'bursts_multi_publisher': 200, 'bursts_with_backlog_while_stopped': 300, 'bursts_with_zero_or_negative_priority': 200}
+REQUIRE = {'bursts': 800, 'gets_checked': 10000, 'bursts_with_3_equal_waiting': 300, 'bursts_multi_publisher': 200, 'bursts_with_backlog_while_stopped': 300, 'bursts_with_zero_or_negative_priority': 200, 'boundary_pairs_checked': 100000}
 ASSUME = ['the fabric is running; one delivery thread per kind']
 ANNOUNCE_CASES = True
 
@@ -36,8 +36,18 @@ def run_case(ctx, n):
   ds.install(s, line_mods=[AO], log_deque=False)
   try:
     fabric = AO.ActiveFabric()
-    qf, ql = collections.deque(), collections.deque()
+    arrivals = {'fifo': [], 'lifo': []}      # client boundary: (scheduler step, unique id) per event put into a subscriber queue
+
+    class RecDeque(collections.deque):
+      kind = None
+
+      def append(self, e):
+        arrivals[self.kind].append((ds.S.steps, e.payload))
+        collections.deque.append(self, e)
+    qf, ql = RecDeque(), RecDeque()
+    qf.kind, ql.kind = 'fifo', 'lifo'
     calls = {}
+    started_at = []
 
     def publisher(plan):
       for u, pr in plan:
@@ -63,6 +73,7 @@ def run_case(ctx, n):
         backlog, plans[0] = plans[0][:k], plans[0][k:]
         publisher(backlog)
         ctx.count('bursts_with_backlog_while_stopped')
+      started_at.append(ds.S.steps)
       fabric.start()
       if npub == 1 and rng.random() < 0.5:
         publisher(plans[0])
@@ -121,6 +132,31 @@ def run_case(ctx, n):
       if sorted(arrived) != sorted(calls):
         ctx.violation('C08/publication-lost-or-duplicated', '%s subscriber received %d events for %d publications' % (qname, len(arrived), len(calls)), wit)
         return
+    # the same statement judged at the client boundary only (publish call / return steps, arrival steps in the subscriber
+    # queues): a delivery thread fetches its next publication after it has handed over the previous one, so when Y arrives
+    # right after X, every publication H whose publish call had RETURNED before X arrived (before the fabric was started, for
+    # the first arrival) was waiting in the fabric when Y was chosen; H more urgent than Y, or as urgent and published before
+    # Y's publish call began, must then have arrived before Y - however many publications the thread holds in its hands
+    for qname in ('fifo', 'lifo'):
+      arr = arrivals[qname]
+      pos = {u: i for i, (_, u) in enumerate(arr)}
+      for i, (step_y, y) in enumerate(arr):
+        cy = calls.get(y)
+        if cy is None:
+          continue
+        t_prev = arr[i - 1][0] if i else started_at[-1]
+        for h, ch in calls.items():
+          if h == y or ch[1] >= t_prev or pos.get(h, -1) < i:
+            continue
+          ctx.count('boundary_pairs_checked')
+          if ch[2] < cy[2]:
+            ctx.violation('C08/lower-priority-delivered-first', '%s subscriber: publication %d (priority %s) arrived (step %d) before publication %d (priority %s), whose publish call had returned (step %d) before the previous arrival (step %d) - it was waiting in the fabric when %d was chosen' % (
+              qname, y, cy[2], step_y, h, ch[2], ch[1], t_prev, y), dict(wit, arrival_order=[u for _, u in arr]))
+            return
+          if ch[2] == cy[2] and ch[1] < cy[0]:
+            ctx.violation('C08/equal-priority-out-of-publish-order', '%s subscriber: publication %d arrived before publication %d of the same priority %s, although the publish call of %d had returned (step %d) before the publish call of %d started (step %d)' % (
+              qname, y, h, cy[2], h, ch[1], y, cy[0]), dict(wit, arrival_order=[u for _, u in arr]))
+            return
     ctx.maxc('max_equal_priority_backlog', maxeq)
     if maxeq >= 3:
       ctx.count('bursts_with_3_equal_waiting')
